@@ -49,6 +49,9 @@ fn parse_binding_indication_known_entity_aspect(
     let (generic_map, port_map) = parse_generic_and_port_map(ctx)?;
 
     let semicolon_token = expect_semicolon_or_last(ctx);
+    // An empty binding indication that is not followed by a semicolon consists of no token at all:
+    // `start_token` is then the token after it and `semicolon_token` the one before it.
+    let start_token = std::cmp::min(start_token, semicolon_token);
     Ok(BindingIndication {
         entity_aspect,
         generic_map,
